@@ -194,6 +194,8 @@ class DataType(metaclass=_DataTypeMeta):
         data = stream.read(size)
         if not data:
             raise BufferEmptyError()
+        if 0 <= size != len(data):
+            raise DataError(f"expected {size} bytes, only {len(data)} available")
         return data
 
     def __repr__(self) -> str:
